@@ -190,11 +190,20 @@ def coerce(v, ty):
         return Val(T.NAME, [_name_of_opaque()(v.t)])
     if ty.kind == "str" and v.ty.kind == "name":
         return Val(T.STR, [_str_of_name()(v.t)])       # the text of an identifier: an uninterpreted function Name -> String
+    if ty.kind == "str" and v.ty.kind == "opaque":
+        return Val(T.STR, [_str_of_opaque()(v.t)])     # str(x) of an unmodelled value: an uninterpreted function Opaque -> String
     raise UnsupportedError(f"cannot use a value of type {v.ty} where {ty} is declared")
 
 
 _noo = []
 _son = []
+_soo = []
+
+
+def _str_of_opaque():
+    if not _soo:
+        _soo.append(z3.Function("str_of_opaque", T.OpaqueSort, z3.StringSort()))
+    return _soo[0]
 
 
 def _str_of_name():
